@@ -350,6 +350,12 @@ class FactMap:
             for c in self._calls_in(nd):
                 facts.add(('called', U(c.func)))
                 facts.add(('calledat', U(c.func), c.lineno, c.col_offset))
+                # a function held in a local: the call completes the function the local denotes on this path
+                if isinstance(c.func, ast.Name):
+                    for a in list(facts):
+                        if a[0] == 'def' and a[1] == c.func.id and isinstance(a[2], str) and \
+                                a[2].replace('.', '').replace('_', '').isalnum() and a[2] != c.func.id:
+                            facts.add(('called', a[2]))
         return facts
 
     def _stmt(self, s, facts):
